@@ -218,6 +218,8 @@ type Hooks struct {
 	OnTriggerReturn func()
 	// CustomRate overrides the scripted custom rate function.
 	CustomRate func(k int, now time.Time) int
+	// StageRate (mode "filestages") replaces the value of evaluation k of rate stage i (v is f1's own value).
+	StageRate func(stage, k int, now time.Time, v int) int
 }
 
 // Run is one executed f1 run and everything observed about it.
@@ -320,6 +322,39 @@ func BuildTrigger(spec *Spec, out *ui.Output, hooks *Hooks, r *Run) (*api.Trigge
 		spec.MaxFailures = t.Options.MaxFailures
 		spec.MaxFailuresRate = t.Options.MaxFailuresRate
 		spec.IgnoreDropped = t.Options.IgnoreDropped
+	case "filestages":
+		// like "file", but through ParseConfigFile + the real stages worker, so that each stage's rate can be observed
+		rs, err := file.ParseConfigFile([]byte(spec.YAML), time.Now())
+		if err != nil {
+			return nil, err
+		}
+		for i := range rs.Stages {
+			if rs.Stages[i].Rate == nil {
+				continue
+			}
+			i := i
+			inner := rs.Stages[i].Rate
+			var k atomic.Int64
+			rs.Stages[i].Rate = func(now time.Time) int {
+				v := inner(now)
+				n := int(k.Add(1)) - 1
+				if r != nil {
+					r.RateEvals.Add(1)
+				}
+				if hooks != nil && hooks.StageRate != nil {
+					v = hooks.StageRate(i, n, now, v)
+				}
+				return v
+			}
+		}
+		td, mf, mfr := file.VerifTotals(rs)
+		trig = &api.Trigger{Trigger: file.VerifStagesWorker(rs), Description: "file stages", Duration: td}
+		spec.Scenario = rs.Scenario
+		spec.MaxDurationMS = int(rs.MaxDuration / time.Millisecond)
+		spec.Concurrency = rs.Concurrency
+		spec.MaxIterations = rs.MaxIterations
+		spec.MaxFailures, spec.MaxFailuresRate = mf, mfr
+		spec.IgnoreDropped = rs.IgnoreDropped
 	case "custom":
 		interval := time.Duration(spec.CustomIntervalUS) * time.Microsecond
 		var k atomic.Int64
